@@ -216,6 +216,31 @@ def run(ctx, rep):
         rep.check(preds == {want_c[tag]}, 'R-C20-4c', 'summary:%s counts stripes for which %s holds' % (tag, want_c[tag]), c.loc(), 'counter incremented under %s' % sorted(preds), function='state_status', construct='counter %s' % tag)
     if seen_tags != set(want_c):
         raise AnalysisBroken('state_status: summary tags not found: %s' % sorted(set(want_c) - seen_tags))
+    # per-file flags feeding per-disk counters are reset for every file (a flag that stays set makes every later file count too)
+    rep.rule('R-C20-4f', 'status: the flag behind the fragmented-file counter is cleared at the start of every file of the disk loop', 1)
+    fr_al = []
+    for c_ in s.calls('log_tag'):
+        o_ = s.strip(c_.ops[0])
+        gn_ = o_[1] if o_[0] == 'g' else (o_[1]['ops'][0][1] if o_[0] == 'ce' and o_[1]['ops'][0][0] == 'g' else None)
+        if gn_ and (P.cstring(gn_) or '').startswith('summary:disk_fragmented_file_count:'):
+            ld_ = s.inst_of(c_.ops[2]) if len(c_.ops) > 2 else None
+            if ld_ is not None and ld_.op == 'load' and s.inst_of(ld_.ops[0]) is not None and s.inst_of(ld_.ops[0]).op == 'alloca':
+                fr_al.append(s.inst_of(ld_.ops[0]))
+    if len(fr_al) != 1:
+        raise AnalysisBroken('state_status: the fragmented-file counter (summary:disk_fragmented_file_count) was not identified')
+    incs_ = [u for u in s.users.get(fr_al[0].id, ()) if u.op == 'store' and s.strip(u.ops[1]) == ['i', fr_al[0].id] and s.inst_of(u.ops[0]) is not None and s.inst_of(u.ops[0]).op == 'add']
+    okf = False; detf = 'counter increment not found'
+    if len(incs_) == 1:
+        flags_ = [a for a, p_ in _g(s, incs_[0]) if p_ and a.isidentifier()]
+        lp_ = s.loop_of(incs_[0].block)
+        detf = 'increment under %s' % flags_
+        for fl in flags_[-1:]:
+            al_ = [i for i in s.all_insts() if i.op == 'alloca' and i.var == fl]
+            if len(al_) == 1 and lp_ is not None:
+                zs = [u for u in s.users.get(al_[0].id, ()) if u.op == 'store' and s.const_of(u.ops[0]) == 0 and u.block in s.loops[lp_] and s.dominates(u, incs_[0])]
+                okf = bool(zs)
+                detf = 'flag `%s` cleared inside the file loop: %s' % (fl, okf)
+    rep.check(okf, 'R-C20-4f', 'state_status: per-file fragmented flag reset', incs_[0].loc() if incs_ else s.file, detf if okf else detf + ': once one file of a disk is fragmented every later file of that disk is counted as fragmented', function='state_status', construct='fragmented flag reset')
     # pool
     for fn in ('make_link', 'clean_dir'):
         g = P.fn(fn)
@@ -242,3 +267,16 @@ def run(ctx, rep):
         det = 'target compared: %s, mtime_sec: %s, mtime_nsec: %s' % (tgt, sec, nsec)
     rep.check(okk, 'R-C20-5k', 'make_link keep-shortcut guard', ml.file, det, function='make_link', construct='keep shortcut')
     rep.extra['escaped_tag_names'] = n
+
+    # pool clean-up: a sub-directory is removed exactly when the recursive clean-up of THAT directory found it empty
+    rep.rule('R-C20-5c', 'clean_dir: rmdir of a sub-directory is decided by the result of cleaning that sub-directory (not by what else the parent contains)', 1)
+    cd = P.fn('clean_dir')
+    rm_ = [c_ for c_ in cd.calls({'rmdir', 'remove'}) if any(c2.callee == 'clean_dir' and cd.dominates(c2, c_) for c2 in cd.calls('clean_dir'))]
+    okc = False; detc = 'removal of the emptied sub-directory not found'
+    for c_ in rm_:
+        gs = _g(cd, c_)
+        rec = [(a, p_) for a, p_ in gs if a.startswith('clean_dir(')]
+        loc_ = [(a, p_) for a, p_ in gs if a.isidentifier() and a not in ('dd',)]
+        okc = bool(rec) and all(not p_ for a, p_ in rec) and not any(a == 'full' for a, p_ in loc_)
+        detc = 'guards: %s' % [(a.split('(')[0], p_) for a, p_ in gs if a.startswith('clean_dir(') or a.isidentifier()]
+    rep.check(okc, 'R-C20-5c', 'clean_dir: sub-directory removed iff its own clean-up returned empty', rm_[0].loc() if rm_ else cd.file, detc if okc else detc + ': an emptied directory is kept (or a non-empty one attempted) depending on the order of the parent\'s entries', function='clean_dir', construct='rmdir decision')
